@@ -38,7 +38,8 @@ enum Op {
     AddNode,
     AddEdge,    // try_add_edge(a, b)
     UpdateEdge, // try_update_edge(a, b)
-    BuildEdge,  // Build::add_edge(a, b) (panics or None on rejection?) — uses the trait
+    BuildEdge,  // Build::add_edge(a, b): None on rejection
+    BuildUpdate, // Build::update_edge(a, b): cannot report rejection, so it must panic rather than insert a cycle
     RemoveEdge,
     RemoveNode,
 }
@@ -135,6 +136,34 @@ macro_rules! history {
                         None => {
                             if !closes_cycle {
                                 bad.push(format!("step {}: Build::add_edge {}->{} refused although it closes no cycle", i, a, b));
+                            }
+                        }
+                    }
+                }
+                Op::BuildUpdate => {
+                    let a = ch.pick(&format!("a{}", i), bound);
+                    let b = ch.pick(&format!("b{}", i), bound);
+                    let (na, nb) = (NodeIndex::new(a), NodeIndex::new(b));
+                    if shadow.node_weight(na).is_none() || shadow.node_weight(nb).is_none() {
+                        continue;
+                    }
+                    let closes_cycle = a == b || has_path_connecting(&shadow, nb, na, None);
+                    wctr += 1;
+                    let r = std::panic::catch_unwind(std::panic::AssertUnwindSafe(|| Build::update_edge(&mut acy, na, nb, wctr)));
+                    match r {
+                        Ok(e) => {
+                            if closes_cycle {
+                                bad.push(format!("step {}: Build::update_edge {}->{} returned {:?} although the edge closes a cycle", i, a, b, e));
+                            } else {
+                                let e2 = shadow.update_edge(na, nb, wctr);
+                                if e != e2 {
+                                    bad.push(format!("step {}: edge index {:?} vs {:?}", i, e, e2));
+                                }
+                            }
+                        }
+                        Err(_) => {
+                            if !closes_cycle {
+                                bad.push(format!("step {}: Build::update_edge {}->{} panicked although it closes no cycle", i, a, b));
                             }
                         }
                     }
@@ -274,13 +303,13 @@ impl Harness for Inst {
 
 fn make(tier: &str, seed: u64) -> Vec<Box<dyn Harness>> {
     let thorough = tier == "thorough";
-    let kinds = [Op::AddNode, Op::AddEdge, Op::UpdateEdge, Op::BuildEdge, Op::RemoveEdge, Op::RemoveNode];
+    let kinds = [Op::AddNode, Op::AddEdge, Op::UpdateEdge, Op::BuildEdge, Op::BuildUpdate, Op::RemoveEdge, Op::RemoveNode];
     let mut seqs: Vec<Vec<Op>> = vec![];
     for &a in &kinds {
         for &b in &kinds {
             for &c in &kinds {
                 let s = vec![a, b, c];
-                let edges = s.iter().filter(|o| matches!(o, Op::AddEdge | Op::UpdateEdge | Op::BuildEdge)).count();
+                let edges = s.iter().filter(|o| matches!(o, Op::AddEdge | Op::UpdateEdge | Op::BuildEdge | Op::BuildUpdate)).count();
                 if edges >= 1 {
                     seqs.push(s);
                 }
@@ -294,12 +323,12 @@ fn make(tier: &str, seed: u64) -> Vec<Box<dyn Harness>> {
             t.extend(s.iter().cloned());
             t.truncate(3);
             t.push(d);
-            if t.iter().filter(|o| matches!(o, Op::AddEdge | Op::UpdateEdge | Op::BuildEdge)).count() <= 3 {
+            if t.iter().filter(|o| matches!(o, Op::AddEdge | Op::UpdateEdge | Op::BuildEdge | Op::BuildUpdate)).count() <= 3 {
                 four.push(t);
             }
         }
     }
-    let picked = if thorough { seqs.clone() } else { rotate_subset(seqs.clone(), seed, 48) };
+    let picked = if thorough { seqs.clone() } else { rotate_subset(seqs.clone(), seed, 96) };
     let mut v: Vec<Box<dyn Harness>> = vec![];
     for s in picked {
         for stable in [false, true] {
